@@ -105,4 +105,40 @@ def runHistory (G : List CV → Tmpl) : State → List (List CV) → List (Bool 
     let res := invoke G st v
     res.1 :: runHistory G res.2 r
 
+/-! ## chains of linked lambdas (`stmt + fn`, `add_criteria`)
+
+`LinkedLambdaElement.tracker_key = parent_lambda.tracker_key + (fn.__code__,)`: the
+analyzed form of a link holds the statement built by ALL links above it, so the lambda
+cache key must identify the whole path of code objects. -/
+
+/-- key function applied to the path of code ids (root first) -/
+def fullKey (path : List Nat) : List Nat := path
+
+/-- the (wrong) alternative: only the parent's and the link's own code -/
+def truncKey (path : List Nat) : List Nat := path.drop (path.length - 2)
+
+abbrev ChainCache := List ((List Nat × List CV) × Tmpl)
+
+def cclookup (k : List Nat × List CV) : ChainCache → Option Tmpl
+  | [] => none
+  | (k', t) :: r => if k' = k then some t else cclookup k r
+
+/-- one construction of the last link of a chain: `path` = code ids, `sv` = accumulated
+    structural closure values, `lits` = current literal closure values -/
+def invokeChain (kf : List Nat → List Nat) (G : List Nat → List CV → Tmpl) (cache : ChainCache)
+    (path : List Nat) (sv lits : List CV) : (Bool × List Out) × ChainCache :=
+  match cclookup (kf path, sv) cache with
+  | some tm => ((true, fill tm lits), cache)
+  | none => ((false, fill (G path sv) lits), ((kf path, sv), G path sv) :: cache)
+
+def directChain (G : List Nat → List CV → Tmpl) (path : List Nat) (sv lits : List CV) : List Out :=
+  fill (G path sv) lits
+
+def runChains (kf : List Nat → List Nat) (G : List Nat → List CV → Tmpl) :
+    ChainCache → List (List Nat × List CV × List CV) → List (Bool × List Out)
+  | _, [] => []
+  | cache, (p, sv, lits) :: r =>
+    let res := invokeChain kf G cache p sv lits
+    res.1 :: runChains kf G res.2 r
+
 end SaVerif.Lambda
